@@ -535,6 +535,9 @@ CheckLine(k, gg) ==
   LET t == Trace[k]  st == t.st
       ok == st.status \notin {"none", "projection-panic"}
       kfmid == IF gg.kfMidLeave THEN "KF-midhand-leave" ELSE ""
+      \* a hand dealt with the label layout of finding KF-C06 (two dealer labels reach the hand engine): the rules model is not
+      \* claimed for it
+      kfhand == IF Len(gg.openSt) = 1 /\ KF_DealtInBetweenDealerAndSB(gg.openSt[1]) THEN "KF-C06-active-between-dealer-and-sb" ELSE ""
       \* KF-open-window-overwrite: a lock-free call landed between the clone and the swap of tableGameOpen and was overwritten
       kfwin(S, other) == IF gg.openWin \cap S # {} THEN "KF-open-window-overwrite" ELSE other
       midOp == gg.inGate \in {"members.add.mid", "members.remove.mid"}   \* another goroutine is parked in the middle of a membership operation
@@ -590,11 +593,11 @@ CheckLine(k, gg) ==
      /\ Clause("C08_continueRuns", C08_continueRuns(t, gg), "", k)
      /\ Clause("C08_noWedge", C08_noWedge(t, gg), IF KF_RotationRefused(st) THEN "KF-C04-waiting-newcomer" ELSE "", k)
      /\ Clause("C10_acceptedLegal", C10_acceptedLegal(t), "", k)
-     /\ Clause("C10_refusedNoTrace", C10_refusedNoTrace(t, gg), "", k)
-     /\ Clause("C10_published", C10_published(t, gg), "", k)
-     /\ Clause("C10_appliedOnce", C10_appliedOnce(t, gg), "", k)
-     /\ Clause("C11_autoStep", C11_autoStep(t, gg), "", k)
-     /\ Clause("C02_handCreated", C02_handCreated(t, gg), "", k)
+     /\ Clause("C10_refusedNoTrace", C10_refusedNoTrace(t, gg), kfmid, k)
+     /\ Clause("C10_published", C10_published(t, gg), kfhand, k)
+     /\ Clause("C10_appliedOnce", C10_appliedOnce(t, gg), kfhand, k)
+     /\ Clause("C11_autoStep", C11_autoStep(t, gg), kfhand, k)
+     /\ Clause("C02_handCreated", C02_handCreated(t, gg), kfhand, k)
      /\ Clause("C11_publishedInOrder", C11_publishedInOrder(t, gg), "", k)
      /\ Clause("C11_askedSets", C11_askedSets(t, gg), "", k)
      /\ Clause("C11_noEarlyAdvance", C11_noEarlyAdvance(t, gg), "", k)
@@ -604,7 +607,7 @@ CheckLine(k, gg) ==
      /\ Clause("C13_errorReturned", C13_errorReturned(t, gg), "", k)
      /\ Clause("C13_unchanged", C13_unchanged(t, gg), "", k)
      /\ Clause("C13_retryAccepted", C13_retryAccepted(t, gg), "", k)
-     /\ Clause("C13_courseBySuccessfulSteps", C13_courseBySuccessfulSteps(t, gg), "", k)
+     /\ Clause("C13_courseBySuccessfulSteps", C13_courseBySuccessfulSteps(t, gg), kfhand, k)
      /\ Clause("C13_autoFailReported", C13_autoFailReported(t, gg), "", k)
      /\ Clause("C12_createAtOpenBlind", C12_createAtOpenBlind(t, gg), "", k)
      /\ Clause("C12_gameBlind", C12_gameBlind(t, gg), "", k)
